@@ -14,9 +14,16 @@
    runs to completion), with cache loss and restarts anywhere. Every step of the
    continuation satisfies lin_claim_k: nobody is returned or left with a session
    under an ID of the lineage, no such ID is drawn again, a request presenting one
-   gets a dead_answer if it completes and shows nothing at all if the process stops
-   inside it; and at every later point every ID of the lineage resolves to nothing
-   or to a replaced-ID record naming an ID of the lineage.
+   gets a dead_answer if it completes (a request that crashes shows nothing in the
+   model by construction - crashed_obs holds of every crashed step; the content is
+   the dead answer of the completed request: C07K_dead_answer_completed); and at
+   every later point every ID of the lineage resolves to nothing or to a
+   replaced-ID record naming an ID of the lineage.
+
+   IDs written by a step that stopped between RegenerateID's two saves and never
+   sent to a client are outside the lineage (C10C, audit task A9): C07K says nothing
+   about them. C07K_orphan_outside_lineage is the example: such an ID, forged after
+   a restart, does yield the ended session's user and data.
 
    How (the two pieces that the first round left open):
    (1) The events of a step. Every persistence call of a fault-free request step
@@ -46,7 +53,7 @@ From Sessions Require Import Model.Base Model.Sess Model.Hist Model.Corr Proofs.
   Proofs.IsoLaws Proofs.DeadLaws Proofs.C01Spec
   Proofs.Lineage Proofs.Lineage2 Proofs.Lineage3 Proofs.Lineage4 Proofs.Lineage5 Proofs.Lineage6
   Proofs.HistLiftB Proofs.LineageB
-  Proofs.LineageK Proofs.LineageK2 Proofs.LineageK3 Proofs.LineageK4 Proofs.LineageE Proofs.LineageE2 Proofs.LineageF Proofs.LineageKEx.
+  Proofs.LineageK Proofs.LineageK2 Proofs.LineageK3 Proofs.LineageK4 Proofs.LineageE Proofs.LineageE2 Proofs.LineageF Proofs.LineageEx Proofs.LineageKEx.
 
 (* ------------------------------------------------------- the notions, unfolded *)
 
@@ -343,6 +350,10 @@ Theorem C07K_events_logout_user :
   forall b D base s u s' r, Gb b (Q1 D) base s -> logout_user s u = (s', r) -> evs_ok D s s'.
 Proof. exact E_logout_user. Qed.
 
+Theorem C07K_events_refresh_user :
+  forall b D base s u s' r, Gb b (Q1 D) base s -> refresh_user s u = (s', r) -> evs_ok D s s'.
+Proof. exact E_refresh_user. Qed.
+
 Theorem C07K_events_fire_due : forall D s, evs_ok D s (fire_due s).
 Proof. exact E_fire_due. Qed.
 
@@ -418,6 +429,13 @@ Proof. exact LIx_reach. Qed.
 Theorem C07K_step : forall D w h, LNx D (w_st w) -> ff_hop h -> lin_claim_k D w h (snd (step w h)).
 Proof. exact step_lin_any. Qed.
 
+(* the content of lin_claim_k's crash clause: the request run to completion
+   (nocrash r), presenting an ID of D, gets a dead answer *)
+Theorem C07K_dead_answer_completed :
+  forall D w r k, LNx D (w_st w) -> rq_plan r = [] -> presents w r = CKey k -> D k ->
+  dead_answer (snd (step w (HReq (nocrash r)))).
+Proof. exact dead_answer_completed. Qed.
+
 (* C07H_lineage_dead, C07H_former_id_presented, C07H_lineage_stays without crash_free *)
 Theorem C07K_lineage_dead :
   forall w kn hs,
@@ -450,6 +468,20 @@ Proof. exact invalidated_lineage_any. Qed.
 
 Theorem C07K_stays : C07K_stays_statement.
 Proof. exact stays_any. Qed.
+
+(* What C07K does NOT cover: the orphan copy. In the history lo_h1 (LineageKEx.v)
+   the process stops between the two saves of Start's RegenerateID (ID 2 saved as a
+   full copy, the replaced-ID record under ID 1 not written, response not sent);
+   the client carries on with ID 1, its next request moves the session to ID 3 and
+   destroys it. After a restart a request forging ID 2 obtains a session with the
+   user and the data, and ID 2 is not in the lineage of the ended ID 3. *)
+Theorem C07K_orphan_outside_lineage :
+  (exists rc, ob_res (snd (step (after lo_w1 [HRestart]) (lx_forge 2 false))) = RSess /\
+              ob_start (snd (step (after lo_w1 [HRestart]) (lx_forge 2 false))) = Some (KGen 2, rc) /\
+              r_ref rc = None /\ r_user rc = Some (5, 0)%N /\ r_data rc = Some [(1, 2)%N]) /\
+  ~ lineage (w_st lo_w1) (KGen 3) (KGen 2) /\
+  ~ lineage (w_st (after lo_w1 [HRestart])) (KGen 3) (KGen 2).
+Proof. exact lk_orphan_outside_lineage. Qed.
 
 (* the executable form of dead_answer used by the tests is sound *)
 Theorem C07K_dead_answerb_sound : forall o, dead_answerb o = true -> dead_answer o.
@@ -495,6 +527,7 @@ Print Assumptions C07K_events_logout.
 Print Assumptions C07K_events_handler_op.
 Print Assumptions C07K_events_create.
 Print Assumptions C07K_events_logout_user.
+Print Assumptions C07K_events_refresh_user.
 Print Assumptions C07K_events_fire_due.
 Print Assumptions C07K_events_script.
 Print Assumptions C07K_events_step.
@@ -511,6 +544,8 @@ Print Assumptions C07K_inv_step.
 Print Assumptions C07K_LIx_step.
 Print Assumptions C07K_LIx_reach.
 Print Assumptions C07K_step.
+Print Assumptions C07K_dead_answer_completed.
+Print Assumptions C07K_orphan_outside_lineage.
 Print Assumptions C07K_lineage_dead.
 Print Assumptions C07K_former_id_presented.
 Print Assumptions C07K_lineage_stays.
@@ -556,3 +591,11 @@ Print Assumptions lk_mid_theorem.
 Print Assumptions lk_h4_not_late.
 Print Assumptions lk_any_theorem.
 Print Assumptions lk_any_answers.
+(* a crash BEFORE the ending request, in the ended session itself (between the two
+   saves of RegenerateID): C07K_destroyed with the crashing hop in hs1; the orphan *)
+Print Assumptions lo_life.
+Print Assumptions lo_ff1.
+Print Assumptions lo_lineage.
+Print Assumptions lo_theorem.
+Print Assumptions lo_answers.
+Print Assumptions lk_orphan_outside_lineage.
